@@ -104,7 +104,7 @@ def process_phase(tier):
     def run(total, seed):
         import time
 
-        n_docs, n_markup, seeds = (1600, 200, [0, 1, 2, "r"]) if tier == "quick" else (40000, 4000, [0, 1, 2, 3, 4, 7, 11, "r"])
+        n_docs, n_markup, seeds = (1600, 200, [0, 1, 2, "r"]) if tier == "quick" else (16000, 2000, [0, 1, 2, 3, 4, 7, 11, "r"])
         seeds = [s if s != "r" else (seed * 7919 + 13) % 4294967295 for s in seeds]
         ties = G.get("ties") or tie_prone_texts()
         docs, mk = _draw_corpus(n_docs, n_markup, seed)
@@ -663,7 +663,7 @@ def _warm_sweep_items(tier):
 
 
 def phases(tier):
-    n_hist, n_thr, n_stress = (1500, 400, 48) if tier == "quick" else (50000, 5000, 800)
+    n_hist, n_thr, n_stress = (1500, 400, 48) if tier == "quick" else (20000, 4000, 400)
     return [
         Phase("histories", "gen", strategy=_history, n=n_hist),
         Phase("thread-schedules", "gen", strategy=_threads, n=n_thr),
